@@ -23,6 +23,8 @@ import (
 	"go/types"
 	"os"
 	"runtime"
+	"strconv"
+	"unsafe"
 	"slices"
 
 	"golang.org/x/tools/go/ssa"
@@ -71,6 +73,10 @@ type fnInfo struct {
 	inRepo    bool
 	isHarness bool
 	name      string
+	nreg      int
+	regMap    map[ssa.Value]int // nil: registers are addressed by their go/ssa number
+	regsReady bool
+	envPool   [][]value
 }
 
 type deferred struct {
@@ -85,7 +91,9 @@ type frame struct {
 	caller           *frame
 	fn               *ssa.Function
 	block, prevBlock *ssa.BasicBlock
-	env              map[ssa.Value]value // dynamic values of SSA variables
+	env              []value // values of SSA variables: params, free variables, then registers by number
+	regBase          int
+	fi               *fnInfo
 	locals           []value
 	defers           *deferred
 	result           value
@@ -118,10 +126,84 @@ func (fr *frame) get(key ssa.Value) value {
 			return r
 		}
 	}
-	if r, ok := fr.env[key]; ok {
-		return r
+	return fr.env[fr.slot(key)]
+}
+
+// slot returns key's index in fr.env.
+func (fr *frame) slot(key ssa.Value) int {
+	switch k := key.(type) {
+	case *ssa.Parameter:
+		for i, p := range fr.fn.Params {
+			if p == k {
+				return i
+			}
+		}
+		panic("get: foreign parameter " + k.Name())
+	case *ssa.FreeVar:
+		for i, p := range fr.fn.FreeVars {
+			if p == k {
+				return len(fr.fn.Params) + i
+			}
+		}
+		panic("get: foreign free variable " + k.Name())
 	}
-	panic(fmt.Sprintf("get: no value for %T: %v", key, key.Name()))
+	if fr.fi.regMap != nil {
+		if n, ok := fr.fi.regMap[key]; ok {
+			return fr.regBase + n
+		}
+		panic(fmt.Sprintf("get: no slot for %T: %v", key, key.Name()))
+	}
+	return fr.regBase + regNum(key)
+}
+
+func (fr *frame) set(key ssa.Value, v value) {
+	fr.env[fr.slot(key)] = v
+}
+
+// regNum reads the register number of a value-defining instruction. All such
+// types of go/ssa v0.29.0 embed ssa.register first: {block *BasicBlock; num int; ...}.
+// checkRegNums validates this reading against Value.Name() for every instruction of
+// a function before the fast path is used for it.
+func regNum(v ssa.Value) int {
+	p := (*[2]unsafe.Pointer)(unsafe.Pointer(&v))[1]
+	return *(*int)(unsafe.Add(p, unsafe.Sizeof(uintptr(0))))
+}
+
+// prepareRegs numbers fn's registers: the fast unsafe path when it provably agrees
+// with the names go/ssa prints, otherwise an explicit map.
+func prepareRegs(fi *fnInfo, fn *ssa.Function) {
+	n := 0
+	ok := true
+	seen := map[int]bool{}
+	var vals []ssa.Value
+	for _, b := range fn.Blocks {
+		for _, in := range b.Instrs {
+			v, isV := in.(ssa.Value)
+			if !isV {
+				continue
+			}
+			vals = append(vals, v)
+			n++
+			k := regNum(v)
+			if k < 0 || k >= 1<<24 || seen[k] || v.Name() != "t"+strconv.Itoa(k) {
+				ok = false
+			}
+			seen[k] = true
+		}
+	}
+	for k := range seen {
+		if k >= n {
+			ok = false
+		}
+	}
+	fi.nreg = n
+	if !ok {
+		fi.regMap = map[ssa.Value]int{}
+		for k, v := range vals {
+			fi.regMap[v] = k
+		}
+	}
+	fi.regsReady = true
 }
 
 // runDefer runs a deferred call d.
@@ -224,35 +306,35 @@ func visitInstr(fr *frame, instr ssa.Instruction) continuation {
 		// no-op
 
 	case *ssa.UnOp:
-		fr.env[instr] = unop(fr, instr, fr.get(instr.X))
+		fr.set(instr, unop(fr, instr, fr.get(instr.X)))
 
 	case *ssa.BinOp:
-		fr.env[instr] = binop(fr, instr.Op, instr.X.Type(), fr.get(instr.X), fr.get(instr.Y))
+		fr.set(instr, binop(fr, instr.Op, instr.X.Type(), fr.get(instr.X), fr.get(instr.Y)))
 
 	case *ssa.Call:
 		fn, args := prepareCall(fr, &instr.Call)
-		fr.env[instr] = call(fr.i, fr, instr.Pos(), fn, args)
+		fr.set(instr, call(fr.i, fr, instr.Pos(), fn, args))
 
 	case *ssa.ChangeInterface:
-		fr.env[instr] = fr.get(instr.X)
+		fr.set(instr, fr.get(instr.X))
 
 	case *ssa.ChangeType:
-		fr.env[instr] = fr.get(instr.X) // (can't fail)
+		fr.set(instr, fr.get(instr.X)) // (can't fail)
 
 	case *ssa.Convert:
-		fr.env[instr] = conv(instr.Type(), instr.X.Type(), fr.get(instr.X))
+		fr.set(instr, conv(instr.Type(), instr.X.Type(), fr.get(instr.X)))
 
 	case *ssa.SliceToArrayPointer:
-		fr.env[instr] = sliceToArrayPointer(instr.Type(), instr.X.Type(), fr.get(instr.X))
+		fr.set(instr, sliceToArrayPointer(instr.Type(), instr.X.Type(), fr.get(instr.X)))
 
 	case *ssa.MakeInterface:
-		fr.env[instr] = iface{t: instr.X.Type(), v: fr.get(instr.X)}
+		fr.set(instr, iface{t: instr.X.Type(), v: fr.get(instr.X)})
 
 	case *ssa.Extract:
-		fr.env[instr] = fr.get(instr.Tuple).(tuple)[instr.Index]
+		fr.set(instr, fr.get(instr.Tuple).(tuple)[instr.Index])
 
 	case *ssa.Slice:
-		fr.env[instr] = slice(fr, fr.get(instr.X), fr.get(instr.Low), fr.get(instr.High), fr.get(instr.Max))
+		fr.set(instr, slice(fr, fr.get(instr.X), fr.get(instr.Low), fr.get(instr.High), fr.get(instr.Max)))
 
 	case *ssa.Return:
 		switch len(instr.Results) {
@@ -331,10 +413,10 @@ func visitInstr(fr *frame, instr ssa.Instruction) continuation {
 		if instr.Heap {
 			// new
 			addr = new(value)
-			fr.env[instr] = addr
+			fr.set(instr, addr)
 		} else {
 			// local
-			addr = fr.env[instr].(*value)
+			addr = fr.get(instr).(*value)
 		}
 		*addr = zero(mustDeref(instr.Type()))
 
@@ -343,7 +425,7 @@ func visitInstr(fr *frame, instr ssa.Instruction) continuation {
 		lenv := fr.get(instr.Len)
 		tElt := instr.Type().Underlying().(*types.Slice).Elem()
 		if isSym(capv) || isSym(lenv) {
-			fr.env[instr] = makeAbsSlice(fr, tElt, lenv, capv)
+			fr.set(instr, makeAbsSlice(fr, tElt, lenv, capv))
 			break
 		}
 		c, l := asInt64(capv), asInt64(lenv)
@@ -354,45 +436,57 @@ func visitInstr(fr *frame, instr ssa.Instruction) continuation {
 			panic(unsupported(fmt.Sprintf("make of %d elements", c)))
 		}
 		slice := make([]value, c)
-		for i := range slice {
-			slice[i] = zero(tElt)
+		if _, isStruct := tElt.Underlying().(*types.Struct); isStruct && c >= 64 {
+			// large blocks of structs (the token/position pools): cells are
+			// materialised by IndexAddr on first use (an untyped nil is never a
+			// legitimate cell value)
+		} else {
+			for i := range slice {
+				slice[i] = zero(tElt)
+			}
 		}
-		fr.env[instr] = slice[:l]
+		fr.set(instr, slice[:l])
 
 	case *ssa.MakeMap:
 		var reserve int64
 		if instr.Reserve != nil {
 			reserve = asInt64(fr.get(instr.Reserve))
 		}
-		fr.env[instr] = makeMap(instr.Type().Underlying().(*types.Map).Key(), reserve)
+		fr.set(instr, makeMap(instr.Type().Underlying().(*types.Map).Key(), reserve))
 
 	case *ssa.Range:
-		fr.env[instr] = rangeIter(fr.get(instr.X), instr.X.Type())
+		fr.set(instr, rangeIter(fr.get(instr.X), instr.X.Type()))
 
 	case *ssa.Next:
-		fr.env[instr] = fr.get(instr.Iter).(iter).next()
+		fr.set(instr, fr.get(instr.Iter).(iter).next())
 
 	case *ssa.FieldAddr:
 		p := fr.ptr(fr.get(instr.X))
-		fr.env[instr] = &(*p).(structure)[instr.Field]
+		fr.set(instr, &(*p).(structure)[instr.Field])
 
 	case *ssa.Field:
-		fr.env[instr] = fr.get(instr.X).(structure)[instr.Field]
+		fr.set(instr, fr.get(instr.X).(structure)[instr.Field])
 
 	case *ssa.IndexAddr:
 		x := fr.get(instr.X)
 		idx := fr.get(instr.Index)
 		switch x := x.(type) {
 		case []value:
-			fr.env[instr] = &x[fr.index(idx, len(x))]
+			k := fr.index(idx, len(x))
+			if x[k] == nil {
+				if st, ok := instr.X.Type().Underlying().(*types.Slice); ok {
+					x[k] = zero(st.Elem())
+				}
+			}
+			fr.set(instr, &x[k])
 		case *value: // *array
 			if x == nil {
 				fr.nilDeref()
 			}
 			a := (*x).(array)
-			fr.env[instr] = &a[fr.index(idx, len(a))]
+			fr.set(instr, &a[fr.index(idx, len(a))])
 		case *absSlice:
-			fr.env[instr] = x.indexAddr(fr, idx)
+			fr.set(instr, x.indexAddr(fr, idx))
 		default:
 			panic(fmt.Sprintf("unexpected x type in IndexAddr: %T", x))
 		}
@@ -403,17 +497,17 @@ func visitInstr(fr *frame, instr ssa.Instruction) continuation {
 
 		switch x := x.(type) {
 		case array:
-			fr.env[instr] = x[fr.index(idx, len(x))]
+			fr.set(instr, x[fr.index(idx, len(x))])
 		case string:
-			fr.env[instr] = x[fr.index(idx, len(x))]
+			fr.set(instr, x[fr.index(idx, len(x))])
 		case symstr:
-			fr.env[instr] = x[fr.index(idx, len(x))]
+			fr.set(instr, x[fr.index(idx, len(x))])
 		default:
 			panic(fmt.Sprintf("unexpected x type in Index: %T", x))
 		}
 
 	case *ssa.Lookup:
-		fr.env[instr] = lookup(fr, instr, fr.get(instr.X), fr.get(instr.Index))
+		fr.set(instr, lookup(fr, instr, fr.get(instr.X), fr.get(instr.Index)))
 
 	case *ssa.MapUpdate:
 		m := fr.get(instr.Map)
@@ -443,14 +537,14 @@ func visitInstr(fr *frame, instr ssa.Instruction) continuation {
 		}
 
 	case *ssa.TypeAssert:
-		fr.env[instr] = typeAssert(fr.i, instr, fr.get(instr.X).(iface))
+		fr.set(instr, typeAssert(fr.i, instr, fr.get(instr.X).(iface)))
 
 	case *ssa.MakeClosure:
 		var bindings []value
 		for _, binding := range instr.Bindings {
 			bindings = append(bindings, fr.get(binding))
 		}
-		fr.env[instr] = &closure{instr.Fn.(*ssa.Function), bindings}
+		fr.set(instr, &closure{instr.Fn.(*ssa.Function), bindings})
 
 	case *ssa.Phi:
 		panic("unreachable") // phis are processed at block entry
@@ -608,19 +702,28 @@ func callSSA(i *interpreter, caller *frame, callpos token.Pos, fn *ssa.Function,
 	}
 	defer func() { i.depth-- }()
 
-	fr.env = make(map[ssa.Value]value)
+	if !fi.regsReady {
+		prepareRegs(fi, fn)
+	}
+	fr.fi = fi
+	fr.regBase = len(fn.Params) + len(fn.FreeVars)
+	// environments are recycled per function without clearing: SSA defines every
+	// register before its uses on every path of one activation
+	if k := len(fi.envPool); k > 0 {
+		fr.env = fi.envPool[k-1]
+		fi.envPool = fi.envPool[:k-1]
+	} else {
+		fr.env = make([]value, fr.regBase+fi.nreg)
+	}
+	defer func() { fi.envPool = append(fi.envPool, fr.env) }()
 	fr.block = fn.Blocks[0]
 	fr.locals = make([]value, len(fn.Locals))
 	for i, l := range fn.Locals {
 		fr.locals[i] = zero(mustDeref(l.Type()))
-		fr.env[l] = &fr.locals[i]
+		fr.set(l, &fr.locals[i])
 	}
-	for i, p := range fn.Params {
-		fr.env[p] = args[i]
-	}
-	for i, fv := range fn.FreeVars {
-		fr.env[fv] = env[i]
-	}
+	copy(fr.env, args[:len(fn.Params)])
+	copy(fr.env[len(fn.Params):], env[:len(fn.FreeVars)])
 	for fr.block != nil {
 		runFrame(fr)
 	}
@@ -750,7 +853,7 @@ func executePhis(fr *frame) []ssa.Instruction {
 			fr.phitemps = append(fr.phitemps, fr.get(phi.Edges[predIndex]))
 		}
 		for i, phi := range phis {
-			fr.env[phi.(*ssa.Phi)] = fr.phitemps[i]
+			fr.set(phi.(*ssa.Phi), fr.phitemps[i])
 		}
 	}
 	return nonPhis
